@@ -55,7 +55,16 @@ theorem C16_client (s : Store) (id : Bytes) :
 theorem C16_read_error_is_not_absence (s : Store) (id : Bytes) (h : routeMatch id = true) :
     (getCheckpointF true s id).status = 500 ∧ client (getCheckpointF true s id) = .err ∧
     getCheckpointF false s id = Api.getCheckpoint s id := by
-  unfold getCheckpointF client; simp [h]
+  unfold getCheckpointF getCheckpointE client httpForCode; simp [h]
+
+/-- whatever status code a failing read carries, the answer is never 200; it is 404 — which the client reports as
+    "does not exist" — only when the storage layer itself said NotFound -/
+theorem C16_error_codes (c : Code) (s : Store) (id : Bytes) (h : routeMatch id = true) :
+    (getCheckpointE (some c) s id).status ≠ 200 ∧ (getCheckpointE (some c) s id).body = [] ∧
+    ((getCheckpointE (some c) s id).status = 404 ↔ c = .notFound) ∧
+    (client (getCheckpointE (some c) s id) = .notExist ↔ c = .notFound) := by
+  unfold getCheckpointE client httpForCode
+  cases c <;> simp [h]
 
 /-- a log list answered with 200 is exactly the stored set, whatever the storage did -/
 theorem C16_logs_200_exact (f : Bool) (s : Store) (h : (getLogsF f s).1 = 200) :
